@@ -317,8 +317,12 @@ uint32_t crc_legacy(const uint8_t *p, size_t n)
 }
 
 /* =================== sizes =================== */
+/* ISA-L adapters: the padding unit follows the word size the instance was created with (8, 16 or 32 bits; 0 =
+ * default 8) although the arithmetic is always GF(2^8).  Set by the harness whenever it creates an instance. */
+int ref_isal_word_bits = 0;
 int ref_word_bytes(int backend)
 {
+    if ((backend == REF_BE_ISAL_VAND || backend == REF_BE_ISAL_CAUCHY) && ref_isal_word_bits >= 8) return ref_isal_word_bits / 8;
     switch (backend) {
     case REF_BE_RSVAND: return 2;
     case REF_BE_XOR: return 4;
